@@ -645,6 +645,83 @@ func init() {
 			}, nil
 		}
 	}
+	// C10: a wrapper type that embeds the claims interface: one Go type, profile-1 claims in one value and profile-2
+	// claims in the next (nothing about a value may be remembered per Go type)
+	Scenarios["c10.wrapper-claims"] = func() (choice.Scenario, func() any) {
+		return func(c *choice.Ctx) {
+			first := c.Choose("first-encoded", 2)
+			stamp := int64(1721138454)
+			for _, kind := range []int{first, 1 - first} {
+				a := genValidOpt(c, kind, false, true)
+				x, err := buildBySetters(a)
+				if err != nil {
+					return
+				}
+				w := WrapClaims{IClaims: x, Stamp: &stamp}
+				tag := fmt.Sprintf("%s:wrapper-claims:encoded-%s", kindNames[kind], map[bool]string{true: "first", false: "second"}[kind == first])
+				encStats.StateStr(tag + a.String())
+				enc, err := extEM.Marshal(w)
+				encStats.Trans.Add(1)
+				if err != nil {
+					c.Failf("C10:encode-error:"+tag, "%v", err)
+					continue
+				}
+				c10Strict(c, encStats, a, enc, tag, map[int64]bool{-75100: true})
+			}
+		}, nil
+	}
+	// C10/C11: the slice handed to SetSoftwareComponents stays the caller's: reusing it afterwards does not change what is
+	// encoded; for both instantiations of the generic container a claims-set can carry
+	Scenarios["c10.caller-reuses-list"] = func() (choice.Scenario, func() any) {
+		return func(c *choice.Ctx) {
+			a := genValidOpt(&choice.Ctx{}, kindP2, false, true)
+			a.Comps = []*refmodel.Comp{okComp(1, 32), fullComp(2, 48), okComp(3, 64)}
+			x, err := buildBySetters(a)
+			if err != nil {
+				return
+			}
+			p2 := x.(*psatoken.P2Claims)
+			inst := c.Choose("container", 2)
+			if inst == 1 {
+				p2.SwComponents = &psatoken.SwComponents[psatoken.ISwComponent]{}
+			} else {
+				p2.SwComponents = &psatoken.SwComponents[*psatoken.SwComponent]{}
+			}
+			list := []psatoken.ISwComponent{}
+			for _, sc := range a.Comps {
+				list = append(list, realComp(sc))
+			}
+			if err := x.SetSoftwareComponents(list); err != nil {
+				c.Failf(fmt.Sprintf("C10:caller-reuses-list:setter-error:container-%d", inst), "%v", err)
+				return
+			}
+			how := c.Choose("caller-then", 4)
+			switch how {
+			case 0:
+				list[0] = realComp(okComp(9, 48))
+			case 1:
+				list[1] = nil
+			case 2:
+				list[0], list[2] = list[2], list[0]
+			case 3:
+				for i := range list {
+					list[i] = realComp(fullComp(byte(0x70+i), 32))
+				}
+			}
+			tag := fmt.Sprintf("caller-reuses-list:container-%d:then-%d", inst, how)
+			encStats.StateStr(tag)
+			encStats.Trans.Add(1)
+			if g, w := getterVector(x), expectedVector(a); g != w {
+				c.Failf("C10:getters:"+tag, "after the caller reused its slice the getters are\n got  %s\n want %s", g, w)
+			}
+			enc, err := psatoken.ValidateAndEncodeClaimsToCBOR(x)
+			if err != nil {
+				c.Failf("C10:encode-error:"+tag, "%v", err)
+				return
+			}
+			c10Strict(c, encStats, a, enc, tag, nil)
+		}, nil
+	}
 	// C09(b): every decodable token of C04's enumeration, valid or not
 	for _, p := range []int{1, 2} {
 		for v := 0; v < 2; v++ {
@@ -1068,6 +1145,10 @@ func init() {
 				for kind := 0; kind < 2; kind++ {
 					exploreChoice(r, fmt.Sprintf("c10.decode-change-encode.%s", kindNames[kind]), b, dl)
 					exploreChoice(r, fmt.Sprintf("c10.signed-payload-after-change.%s", kindNames[kind]), 2, dl)
+					if kind == 0 {
+						exploreChoiceOpts(r, "c10.wrapper-claims", 2, dl, 1)
+						exploreChoice(r, "c10.caller-reuses-list", -1, dl)
+					}
 				}
 			}
 			if prop == "C09" {
